@@ -708,6 +708,22 @@ func (d *Driver) fireEvents() {
 		switch {
 		case w.Token != "":
 			switch w.Phase {
+			case "sent":
+				// the client has handed the request's last byte to the proxy's socket (the proxy may not have polled it yet);
+				// the target is the connection to the master owning the request's first key
+				ci, ri := reqIndexOfToken(w.Token)
+				if ci < len(d.Clients) && ri < len(d.Clients[ci].bounds) && d.Clients[ci].Connected && d.Clients[ci].sent >= d.Clients[ci].bounds[ri] {
+					ok = true
+					if ks := d.Clients[ci].Plan.Reqs[ri].Keys; len(ks) > 0 {
+						if o := d.C.Truth.Owner(RefSlot([]byte(ks[0]))); o != nil {
+							for _, bc := range d.C.Conns() {
+								if !bc.Dead && bc.Node.Addr == o.Addr {
+									target = bc
+								}
+							}
+						}
+					}
+				}
 			case "written":
 				if bc := d.connHoldingToken(w.Token); bc != nil {
 					ok, target = true, bc
@@ -741,6 +757,9 @@ func (d *Driver) fireEvents() {
 		}
 		if !ok {
 			continue
+		}
+		if e.Node != "" && w.Token != "" && e.Kind == "kill-conn" {
+			target = nil // the token only times the event; the victim is the connection to the named node
 		}
 		e.Fired = true
 		d.applyEvent(e, target)
